@@ -20,7 +20,38 @@ M=[
  ('M4 crossSumBestAtBelief stores the position in the (possibly pruned) projection list instead of the parent id',
   'include/AIToolbox/POMDP/Utils.hpp',
   "out.observations[o] = bestMatch->observations[0];",
-  "out.observations[o] = std::distance(begin, bestMatch);"),
+  "out.observations[o] = bestMatch - &(*begin);"),
+ ('M10 merge schedule passes order = (stepsize < 0) (caught twice: the translator flips Gen.C04.orderWhenForward and the schedule theorems no longer check; the harness finds failing inputs)',
+  'include/AIToolbox/POMDP/Algorithms/IncrementalPruning.hpp',
+  "projs[a][i] = crossSum(projs[a][i], projs[a][i + diff], a, stepsize > 0);",
+  "projs[a][i] = crossSum(projs[a][i], projs[a][i + diff], a, stepsize < 0);"),
+ ('M11 crossSum concatenates the second operand first when order is true (and vice versa)',
+  'src/POMDP/Algorithms/IncrementalPruning.cpp',
+  """                if ( order ) {
+                    obs.insert(std::end(obs), O1begin, O1end);
+                    obs.insert(std::end(obs), O2begin, O2end);
+                } else {
+                    obs.insert(std::end(obs), O2begin, O2end);
+                    obs.insert(std::end(obs), O1begin, O1end);
+                }""",
+  """                if ( order ) {
+                    obs.insert(std::end(obs), O2begin, O2end);
+                    obs.insert(std::end(obs), O1begin, O1end);
+                } else {
+                    obs.insert(std::end(obs), O1begin, O1end);
+                    obs.insert(std::end(obs), O2begin, O2end);
+                }"""),
+ ('H2 harmless reformatting of the schedule statements (spacing, const dropped, braces added): translator must still read them',
+  'include/AIToolbox/POMDP/Algorithms/IncrementalPruning.hpp',
+  """                    const int tmp   = back;
+                    back      = front - ( oddNew ? 0 : stepsize );
+                    front     = tmp   - ( oddOld ? 0 : stepsize );
+                    stepsize *= -2;
+                    diff     *= -2;""",
+  """                    int tmp = back;
+                    back = front - (oddNew ? 0 : stepsize);
+                    front = tmp - (oddOld ? 0 : stepsize);
+                    stepsize *= -2; diff *= -2;"""),
  ('M5 crossSumBestAtBelief over actions keeps the best values/links but forgets to take the action along',
   'include/AIToolbox/POMDP/Utils.hpp',
   """                bestValue = tmp;
